@@ -676,7 +676,8 @@ func (ld *Loaded) verifyContract(c *Contract, useContracts bool) (vcs []*VC, err
 		if inst.label != "" {
 			name += "[" + inst.label + "]"
 		}
-		vcs = append(vcs, &VC{Name: name, Layer: c.Layer, Props: c.Props, Query: q, B: x.b, Exec: x})
+		x.addArgValues(q, c, inst.args, pre)
+		vcs = append(vcs, &VC{Name: name, Layer: c.Layer, Props: c.Props, Query: q, B: x.b, Exec: x, Replay: &ReplaySpec{Kind: "func", Contract: c}})
 	}
 	return vcs, nil
 }
